@@ -109,6 +109,7 @@ func (e *Explorer) resetPath(prefix []Decision) {
 	e.instrs = 0
 	e.observes = e.observes[:0]
 	e.implied = map[int]bool{}
+	MapOrderPermute, mapPolicy = false, -1
 }
 
 func (e *Explorer) known(cond *smt.Term) (val, ok bool) {
